@@ -16,7 +16,7 @@ def main():
     for d in sorted((ROOT / "seeded").iterdir()):
         m = json.loads((d / "meta.json").read_text())
         nm = m["name"]
-        if nm[:3] in ("r4-", "r5-", "r6-"):
+        if nm[:3] in ("r4-", "r5-", "r6-", "r7-"):
             nm = nm[3:]
         known.setdefault(m["property"], []).append(f"- {nm.replace('-', ' ')} (manifests with: {m.get('needs_to_manifest', '')})")
     for line in (ROOT / "properties.jsonl").read_text().splitlines():
